@@ -40,7 +40,7 @@ REQUIRED_COUNTERS = {"quick": {"argmon:calls": 30000, "argmon:alias-checked": 10
                      "thorough": {"argmon:calls": 300000, "argmon:alias-checked": 100000, "invariant:evaluations": 200000, "twin:lganm": 1500, "twin:anm": 1000,
                                   "twin:nd": 1000, "copy-on-construct:LGANM": 1000, "copy-on-construct:ANM": 1000, "copy-on-construct:NormalDistribution": 1000,
                                   "copy-on-construct:DRFNet": 100, "write-through-tests": 20000, "utils-functions-covered": 1}}
-N = {"quick": {"models": 600, "utils": 500, "drf": 24}, "thorough": {"models": 6000, "utils": 6000, "drf": 240}}
+N = {"quick": {"models": 600, "utils": 500, "drf": 24}, "thorough": {"models": 40000, "utils": 30000, "drf": 1000}}
 
 
 def gen(tier, seed, shard, nshards):
